@@ -29,7 +29,10 @@ try:
     subprocess.run(f"git -C /repo archive HEAD | tar -x -C {tmp}", shell=True, check=True)
     # the demos must import the scratch copy, not the editable install of /repo
     env["PYTHONPATH"] = str(tmp)
-    r0 = subprocess.run(["/venv/bin/python", str(out / "demo.py")], cwd=tmp, capture_output=True, text=True, env=env, timeout=1200)
+    # ... and they are run from <copy>/seed/demo.py, where the seeder ran them
+    (tmp / "seed").mkdir(exist_ok=True)
+    shutil.copy(out / "demo.py", tmp / "seed" / "demo.py")
+    r0 = subprocess.run(["/venv/bin/python", "seed/demo.py"], cwd=tmp, capture_output=True, text=True, env=env, timeout=1200)
     rec["demo_without_change"] = {"exit": r0.returncode, "tail": (r0.stdout + r0.stderr)[-400:]}
     ap = subprocess.run(["git", "apply", "--directory", ".", str(out / "patch.diff")], cwd=tmp, capture_output=True, text=True)
     if ap.returncode != 0:
@@ -39,7 +42,7 @@ try:
         rec["apply_error"] = ap.stderr[-300:]
     comp = subprocess.run(["/venv/bin/python", "-m", "compileall", "-q", "tdgl"], cwd=tmp, capture_output=True, text=True)
     rec["compiles"] = comp.returncode == 0
-    r1 = subprocess.run(["/venv/bin/python", str(out / "demo.py")], cwd=tmp, capture_output=True, text=True, env=env, timeout=1200)
+    r1 = subprocess.run(["/venv/bin/python", "seed/demo.py"], cwd=tmp, capture_output=True, text=True, env=env, timeout=1200)
     rec["demo_with_change"] = {"exit": r1.returncode, "tail": (r1.stdout + r1.stderr)[-600:]}
     # checks
     fired = {}
